@@ -280,7 +280,9 @@ def load_family(path_rs, fn, family, quantity):
     if quantity == "baseline":
         need(src, path_rs, [r"\(\s*baseline\s*,\s*_\s*,\s*_\s*\)", r"baseline\.round\(\) as i16",
                             r"HashMap<\s*\w+\s*,\s*\(\s*f64\s*,\s*f64\s*,\s*usize\s*\)\s*>"])
-    need(src, path_rs, [r"map\s*\.get\(&(?:wire|pad)\)\s*\.copied\(\)\s*\.ok_or\("])
+    # how the selected map is looked up (`map.get(&key).copied().ok_or(..)`, a `match map.get(..)`, ...) is not checked
+    # here: every entry of every table is compared with the implementation's answer (gain adoption below, `calw` / `calp`
+    # lines of the differential run)
     if family == "wires":
         need(src, path_rs, [r"serde_json::from_slice\(bytes\)\.unwrap\(\)"])
     else:
@@ -478,6 +480,38 @@ def entry_list(fam, dump):
     return dump[0] if fam == "wires" else [e for col in dump[1] for e in col]
 
 
+def pinned_prior(fam, F):
+    """{quantity: run -> map name | delay | None} from the pinned configuration (pinned/Calib.v.gz), used only where a
+    dispatch cannot be observed (dispatchx.reconstruct).  A pinned table index is translated to the CURRENT map through
+    the data file named in the pinned comment (or, failing that, the map's name)."""
+    import gzip
+    unit = {"wires": "wire", "pads": "pad"}[fam]
+    try:
+        text = gzip.open(os.path.join(os.path.dirname(gen.GEN), "..", "pinned", "Calib.v.gz"), "rt").read()
+    except (OSError, EOFError, UnicodeDecodeError):
+        return None
+    out = {}
+    for q in ("baseline", "gain"):
+        arms = dx.parse_coq_arms(text, "%s_%s_arms" % (unit, q))
+        if arms is None:
+            return None
+        idx = {}
+        for name, path, i in re.findall(r"\(\* \S+ (\w+) <- (\S+): \d+ entries \*\)\s*Definition %s_%s_(\d+)(?:_c0)? " % (unit, q), text):
+            cur = [n for n, f in F[q]["files"].items() if f == path] or [n for n in F[q]["names"] if n == name]
+            if len(cur) == 1:
+                idx[int(i)] = cur[0]
+
+        def f(run, arms=arms, idx=idx):
+            v = dx.apply_arms(arms, run)
+            return None if v is None else idx.get(v)
+        out[q] = f
+    arms = dx.parse_coq_arms(text, "%s_delay_arms" % unit)
+    if arms is None:
+        return None
+    out["delay"] = lambda run, arms=arms: dx.apply_arms(arms, run)
+    return out
+
+
 def reconstruct_family(fam, keys, F, dumps, runs):
     """semantic fallback (dispatchx.reconstruct) for the dispatches of one detector family the front end could not
     read: F = dict(baseline=.., gain=.., delay=..) with arms None where unknown; fills the arms in"""
@@ -505,7 +539,7 @@ def reconstruct_family(fam, keys, F, dumps, runs):
             dumps[r] = d
             entries[r] = entry_list(fam, d)
     rec = dx.reconstruct("calibration/%s" % fam, runs, domains, known, matches,
-                         lambda r: all(e is None for e in entries[r]), more=more)
+                         lambda r: all(e is None for e in entries[r]), more=more, prior=pinned_prior(fam, F))
     for q, arms in rec.items():
         F[q]["arms"] = arms
 
